@@ -1,18 +1,134 @@
-import CalicoVerif.Model.C06Parser
+import CalicoVerif.Proofs.C06Roundtrip
+import CalicoVerif.Proofs.C06Wf
+import CalicoVerif.Proofs.C06Validate
 /-!
 C06 — Selectors keep their meaning through canonical formatting.
-Property theorems only (helper lemmas live in `CalicoVerif.Proofs.C06*`).
+
+Property theorems only; helper lemmas live in `CalicoVerif.Proofs.C06*`, the
+model in `CalicoVerif.Model.C06{Tokenizer,Ast,Parser}`.
+
+Statement of the property: for every selector expression `s` the parser accepts
+(`parse s = ok t`), the canonical text `t.text` parses back to a selector that
+(a) matches the same label sets, (b) has the same canonical text, (c) has the
+same identity hash; and (d) `Validate` accepts exactly what `Parse` accepts.
+
+(a) and (d) are proved at full strength.  (b) and (c) are FALSE of the current
+code (`reparse_same_text_counterexample`, reproduced on the real parser by the
+harness oracle, signature `nested-not`); they are proved as `…_partial` under
+the extra hypothesis `NoNestedNot t`, and `reparse_exact` says precisely what
+the re-parse returns in every case (`collapse t`).
 -/
 namespace CalicoVerif.C06
+
+/-! ### structure of what the parser returns -/
+
+/-- Everything `Parse` returns is well-formed: labels are non-empty identifiers of
+at most 512 bytes, string values lack one of the two quote characters, set
+literals are strictly ascending (sorted, de-duplicated), `&&`/`||` nodes have at
+least two operands. -/
+theorem parse_wf {s : Str} {t : Node} (h : parse s = .ok t) : WF t := CalicoVerif.C06.parse_wf_aux h
+
+/-- The canonical text of any well-formed tree parses, and yields the tree with
+stacked negations folded (`!!x ↦ x`). -/
+theorem parse_print_collapse {t : Node} (h : WF t) : parse t.text = .ok (collapse t) :=
+  parse_text t h
+
+/-- `parse ∘ print = id` on well-formed trees without a directly nested negation.
+(`_partial`: the `NoNestedNot` hypothesis cannot be derived from `parse s = ok t`,
+see `reparse_same_text_counterexample`.) -/
+theorem parse_print_roundtrip_partial {t : Node} (h : WF t) (hn : NoNestedNot t) :
+    parse t.text = .ok t := by
+  rw [parse_text t h, collapse_eq_self t hn]
+
+/-- What re-parsing the canonical text of an accepted selector returns, exactly. -/
+theorem reparse_exact {s : Str} {t : Node} (h : parse s = .ok t) : parse t.text = .ok (collapse t) :=
+  parse_text t (parse_wf h)
+
+/-! ### (a) same meaning — full strength -/
+
+/-- FULL: the canonical text of every accepted selector parses back to a selector
+that matches exactly the same label maps. -/
+theorem reparse_same_eval {s : Str} {t : Node} (h : parse s = .ok t) :
+    ∃ t', parse t.text = .ok t' ∧ ∀ labels : Labels, t'.eval labels = t.eval labels :=
+  ⟨collapse t, reparse_exact h, fun labels => eval_collapse labels t⟩
+
+/-! ### (b), (c) same text / same id — false in general, proved without nested negation -/
 
 /-- The selector text `!(!has(a))`. -/
 def nestedNotInput : Str := ['!','(','!','h','a','s','(','a',')',')']
 
-/-- WITNESS (the full-strength "same canonical text" statement is false of the
-current code): `!(!has(a))` is accepted, its canonical text is `!!has(a)`, and
-that text parses to `has(a)`, whose canonical text is `has(a)`. -/
+/-- WITNESS that "same canonical text" is false of the current code:
+`!(!has(a))` is accepted, its canonical text is `!!has(a)`, and that text parses
+to `has(a)`, whose canonical text is `has(a)`. -/
 theorem reparse_same_text_counterexample :
     ∃ s t t', parse s = .ok t ∧ parse t.text = .ok t' ∧ t'.text ≠ t.text :=
   ⟨nestedNotInput, .not (.not (.has ['a'])), .has ['a'], by rfl, by rfl, by decide⟩
+
+/-- the same witness, spelled out. -/
+example : parse nestedNotInput = .ok (.not (.not (.has ['a']))) := by rfl
+example : (Node.not (.not (.has ['a']))).text = ['!','!','h','a','s','(','a',')'] := by decide
+example : parse ['!','!','h','a','s','(','a',')'] = .ok (.has ['a']) := by rfl
+example : ¬ NoNestedNot (.not (.not (.has ['a']))) := by simp [NoNestedNot, Node.isNot]
+
+/-- WITNESS for the identity hash: for any hash that tells the two texts apart
+(SHA-224 does: the harness compares the real `UniqueID()`s), the ids differ. -/
+theorem reparse_same_id_counterexample (H : Str → Str)
+    (hH : H ['s',':','!','!','h','a','s','(','a',')'] ≠ H ['s',':','h','a','s','(','a',')']) :
+    ∃ s t t', parse s = .ok t ∧ parse t.text = .ok t' ∧ t'.uniqueID H ≠ t.uniqueID H := by
+  refine ⟨nestedNotInput, .not (.not (.has ['a'])), .has ['a'], by rfl, by rfl, ?_⟩
+  intro e
+  apply hH
+  have : (Node.has ['a']).uniqueID H = 's' :: ':' :: H ['s',':','h','a','s','(','a',')'] := rfl
+  rw [this] at e
+  have h2 : (Node.not (.not (.has ['a']))).uniqueID H = 's' :: ':' :: H ['s',':','!','!','h','a','s','(','a',')'] := rfl
+  rw [h2] at e
+  simpa using e.symm
+
+/-- PARTIAL (needs `NoNestedNot t`): the canonical text parses back to the same
+tree, hence to the same canonical text. -/
+theorem reparse_same_text_partial {s : Str} {t : Node} (h : parse s = .ok t) (hn : NoNestedNot t) :
+    ∃ t', parse t.text = .ok t' ∧ t'.text = t.text :=
+  ⟨t, parse_print_roundtrip_partial (parse_wf h) hn, rfl⟩
+
+/-- PARTIAL (needs `NoNestedNot t`): same identity hash, for every hash function. -/
+theorem reparse_same_id_partial (H : Str → Str) {s : Str} {t : Node} (h : parse s = .ok t)
+    (hn : NoNestedNot t) : ∃ t', parse t.text = .ok t' ∧ t'.uniqueID H = t.uniqueID H :=
+  ⟨t, parse_print_roundtrip_partial (parse_wf h) hn, rfl⟩
+
+/-! ### (d) Validate accepts exactly what Parse accepts — full strength -/
+
+/-- FULL: `Validate` fails with exactly the error `Parse` fails with. -/
+theorem validate_error_iff_parse_error (s : Str) (e : Err) :
+    validate s = .error e ↔ parse s = .error e := by
+  rw [validate_eq_parse]
+  cases parse s with
+  | error e' => simp
+  | ok t => simp
+
+/-- FULL: `Validate` accepts an expression iff `Parse` accepts it. -/
+theorem validate_iff_parse (s : Str) : validate s = .ok () ↔ ∃ t, parse s = .ok t := by
+  rw [validate_eq_parse]
+  cases parse s with
+  | error e => simp
+  | ok t => simp
+
+/-! ### non-vacuity -/
+
+/-- `(a == "x" && !has(b)) || c in {"p", "q"}` … -/
+def sampleTree : Node :=
+  .or [.and [.eq ['a'] ['x'], .not (.has ['b'])], .inSet ['c'] [['p'], ['q']]]
+
+example : WF sampleTree := by
+  simp [sampleTree, WF, WFList, ValidLabel, QuoteSafe, StrictSorted, maxLabelLength, strLt]
+  decide
+example : NoNestedNot sampleTree := by
+  simp [sampleTree, NoNestedNot, NoNestedNotList, Node.isNot]
+example : parse sampleTree.text = .ok sampleTree := by rfl
+/-- an accepted input whose tree differs from the input text's shape (sorting,
+de-duplication, quote normalisation, `notin`). -/
+example : parse ['a',' ','n','o','t','i','n','{','\'','q','\'',',','"','p','"',',','\'','q','\'','}'] =
+    .ok (.notInSet ['a'] [['p'], ['q']]) := by rfl
+example : validate ['a',' ','=','='] = .error .expectedString := by rfl
+example : parse ['a',' ','=','='] = .error .expectedString := by rfl
 
 end CalicoVerif.C06
